@@ -1,6 +1,6 @@
 #!/usr/bin/env python3
 """tools/repo_fix.py <property> <file under /repo> <commit message> <what failed> <<< JSON [[old, new], ...]
-Applies exact-once text replacements to a /repo file, re-runs the baseline tests (must still be 46 passed / 17 failed / 2 errors),
+Applies exact-once text replacements to a /repo file, re-runs the test-suite (every test of the pinned 46-test baseline must still pass),
 commits as one 'fix:' commit and records it in known_findings.json.  Reverts the file when anything does not match."""
 import json, subprocess, sys
 prop, path, msg, what = sys.argv[1:5]
@@ -12,11 +12,13 @@ for old, new in pairs:
     print("NOT APPLIED: %r occurs %d times" % (old[:60], s.count(old))); sys.exit(1)
   s = s.replace(old, new)
 open(full, 'w').write(s)
-out = subprocess.run("/venv/bin/python -m pytest -q -p no:cacheprovider --timeout=900 --continue-on-collection-errors 2>&1 | tail -1", shell=True,
-                     capture_output=True, text=True, cwd='/repo').stdout.strip()
-print(out)
-if '17 failed, 46 passed' not in out or '2 errors' not in out:
-  open(full, 'w').write(orig); print("REVERTED: baseline changed"); sys.exit(1)
+out = subprocess.run("/venv/bin/python -m pytest -q -p no:cacheprovider --timeout=900 --continue-on-collection-errors -rA 2>&1", shell=True,
+                     capture_output=True, text=True, cwd='/repo').stdout
+print(out.strip().split('\n')[-1])
+passed = set(l.split()[1].replace('tests/', 'tests.').replace('/', '.').replace('.py::', '.') for l in out.split('\n') if l.startswith('PASSED '))
+missing = [t for t in json.load(open('/root/.vp/BASELINE.json'))['stable_pass'] if t not in passed]
+if missing:      # (a repair may make further tests pass; every test of the pinned baseline must still pass)
+  open(full, 'w').write(orig); print("REVERTED: baseline tests no longer pass:", missing); sys.exit(1)
 subprocess.run("find /repo -name __pycache__ -prune -exec rm -rf {} +", shell=True)
 assert msg.startswith('fix: ')
 subprocess.check_call(['git', '-C', '/repo', 'commit', '-qam', msg])
